@@ -240,7 +240,8 @@ def gen_leaf(R, pool, row, conv_hint):
 def gen_value(R, pool, row, conv_hint, depth=0):
     mv, md = row[4], row[5]
     r = R.random()
-    want_list = (r < 0.55) if mv else (r < 0.12)
+    # single-valued attributes without a type-checking converter keep a sequence as it is: count and values must agree
+    want_list = (r < 0.55) if mv else (r < (0.45 if conv_hint in ('ident', 'maybeNumeric') else 0.12))
     if not want_list:
         return gen_leaf(R, pool, row, conv_hint)
     n = R.choice([0, 1, 1, 2, 2, 3, 5])
@@ -251,7 +252,7 @@ def gen_value(R, pool, row, conv_hint, depth=0):
             out.append(gen_value_list(R, pool, row, conv_hint, depth + 1))
         else:
             out.append(gen_leaf(R, pool, row, conv_hint))
-    return tuple(out) if R.random() < 0.2 else out
+    return tuple(out) if R.random() < 0.4 else out
 
 
 def gen_value_list(R, pool, row, conv_hint, depth):
@@ -504,7 +505,7 @@ def run_stream(chk, model, bres, R, n_per_attr, schema_rows, stream='convert', h
                 calls, outs, last_ok_value, descr = [], [], None, []
                 with HC(hc):
                     for _c in range(ncalls):
-                        arg, parts = gen_call(R, pool, row, None)
+                        arg, parts = gen_call(R, pool, row, convs.get((st, label)))
                         calls.append(parts)
                         descr.append(describe_arg(arg))
                         before = held_tokens(attr.value)
